@@ -50,7 +50,7 @@ pub struct MomentumParams {
 /// given by
 ///
 /// ```notrust
-/// p_market = demand * tanh(scale * M) / n
+/// p_market = |demand * tanh(scale * M)| / n
 /// ```
 /// where `n` is the number of agents. The probability of
 /// placing a limit order is then given by
@@ -154,7 +154,7 @@ impl Agent for MomentumAgent {
                 let m =
                     self.momentum * (1.0 - self.params.decay) + self.params.decay * (mid_price - p);
                 let p = self.params.demand * f64::tanh(self.params.scale * m) / self.n;
-                (m, p)
+                (m, p.abs())
             }
             None => (0.0, 0.0),
         };
@@ -224,7 +224,7 @@ impl Agent for MomentumAgent {
 /// given by
 ///
 /// ```notrust
-/// p_market = demand * tanh(scale * M) / n
+/// p_market = |demand * tanh(scale * M)| / n
 /// ```
 /// where `n` is the number of agents. The probability of
 /// placing a limit order is then given by
@@ -340,7 +340,7 @@ impl MarketAgent for MomentumMarketAgent {
                 let m =
                     self.momentum * (1.0 - self.params.decay) + self.params.decay * (mid_price - p);
                 let p = self.params.demand * f64::tanh(self.params.scale * m) / self.n;
-                (m, p)
+                (m, p.abs())
             }
             None => (0.0, 0.0),
         };
